@@ -182,8 +182,8 @@ def c12(tier):
     cov["exhaustive"] = False
     for n in notes[:5]:
         log("NOTE:", n)
-    return vlib.finish("C12", tier, "model_checking", dict(cov, states=max(1, distinct), transitions=max(1, cov["evaluations"]), traces_validated_against_impl=e["counters"]["m_validated"]),
-                       t0, violations, ["rustc/cargo 1.95 trusted", "termination and compile time are decided for the enumerated definitions only"])
+    cov["traces_validated_against_impl"] = e["counters"]["m_validated"]
+    return vlib.finish("C12", tier, "exploration", cov, t0, violations, ["rustc/cargo 1.95 trusted", "termination and compile time are decided for the enumerated definitions only"])
 
 
 # ====================================================================== C17
@@ -535,6 +535,9 @@ def run(prop, tier):
 def replay(prop, path):
     v = json.load(open(path))
     log("replay file:", json.dumps({k: v.get(k) for k in ("property", "definition", "input", "script", "what", "expected", "observed", "detail")}, indent=1, default=str)[:3000])
-    log("re-running the whole quick check of the property against the working tree (the case is part of its family or regress list)")
-    import subprocess
+    if v.get("lexer") is not None and v.get("input") is not None and "script_raw" in v:
+        lk = vlib.lock()
+        vlib.ensure_harness()
+        return vlib.replay_e2e(prop, v)
+    log("not an execution of a generated lexer: re-running the quick check of the property against the working tree (the case is part of its family or regress list)")
     return subprocess.call([os.path.join(vlib.VERIF, "check"), prop, "--tier", "quick"])
